@@ -140,6 +140,13 @@ func c07Inputs(tier string) []decInput {
 			addStructured(0x82, true, lenForm{8, d}, pres, 70000)
 		}
 	}
+	// frames around the initial capacity of the stream's receive buffer (4096): header + mask + payload end just below,
+	// at and just above it, so that "reserve room for the rest" is exercised where the remainder is a few bytes
+	for decl := uint64(4080); decl <= 4097; decl++ {
+		for _, masked := range []bool{false, true} {
+			addStructured(0x82, masked, lenForm{2, decl}, 2, 70000)
+		}
+	}
 	// (iii') a complete frame followed by a frame of a longer length class that is still incomplete: the bytes the
 	// first frame left behind in the buffer must never be taken for length or mask bytes that have not arrived
 	for _, first := range []string{"hello, websocket", "\xff\xff\xff\xff\xff\xff\xff\xff\xff\xff\xff\xff"} {
@@ -305,12 +312,42 @@ func c07Body(ins []decInput, tier string) func(x *engine.X) {
 			x.Note("earlier session: %s", c07Priors[prior].name)
 		}
 		codec := websocket.NewFrameCodec(src, dst, in.max)
+		// Delivery: appended with Write (the buffer grows as needed), or the way a transport read delivers — into the
+		// spare capacity only (websocket.Stream starts with 4096 bytes reserved; CodecConn reads into data[wi:cap]).
+		// A decoder that asks for more without leaving room for it stalls the connection: the next read has a
+		// zero-length buffer.
+		transport := x.Pick(2, "delivery: Write | into the spare capacity, as a transport read") == 1
+		if transport {
+			src.Reserve(4096)
+		}
 		var got decResult
 		capLimit := 2*(len(in.b)+in.max+14) + 1024
+		if transport {
+			capLimit += 4096 // what the harness reserved itself
+		}
 		x.Guard("wsframe.Decode/panic", func() {
+			// a transport read of a segment may take several reads of whatever room there is; the pieces are cut lazily
+			// below (the room depends on what the decoder did in between)
+			segs := split(in.b, cuts)
 		feed:
-			for _, seg := range split(in.b, cuts) {
-				src.Write(seg)
+			for si := 0; si < len(segs); si++ {
+				seg := segs[si]
+				if !transport {
+					src.Write(seg)
+				} else {
+					room := 0
+					src.Claim(func(b []byte) int {
+						room = len(b)
+						return copy(b, seg)
+					})
+					if room == 0 {
+						x.Fail("wsframe.Decode/need-more-without-room", "the decoder asked for more bytes (%d of %d delivered) but the source buffer has no spare capacity (len %d cap %d): the transport read that follows gets a zero-length buffer", len(in.b)-len(seg), len(in.b), src.Len(), src.Cap())
+					}
+					if room < len(seg) {
+						// the rest of the segment arrives with the next read
+						segs = append(segs[:si+1], append([][]byte{seg[room:]}, segs[si+1:]...)...)
+					}
+				}
 				for {
 					f, err := codec.Decode(src)
 					if c := src.Cap(); c > capLimit {
